@@ -151,7 +151,8 @@ UNWRAPS = ("std::option::Option::<T>::unwrap", "std::option::Option::<T>::expect
 INDEXERS = ("std::ops::Index::index", "std::ops::IndexMut::index_mut")
 OTHER_PANICKY = ("core::slice::<impl [T]>::copy_from_slice", "core::slice::<impl [T]>::split_at", "core::slice::<impl [T]>::split_at_mut", "std::vec::Vec::<T, A>::remove", "std::vec::Vec::<T, A>::insert",
                  "std::vec::Vec::<T, A>::drain", "std::vec::Vec::<T, A>::swap_remove", "std::vec::Vec::<T, A>::split_off", "std::cell::RefCell::<T>::borrow", "std::cell::RefCell::<T>::borrow_mut",
-                 "core::num::<impl u32>::pow", "core::num::<impl u64>::pow", "core::slice::<impl [T]>::chunks", "core::slice::<impl [T]>::windows", "std::iter::Iterator::step_by")
+                 "core::num::<impl u32>::pow", "core::num::<impl u64>::pow", "core::slice::<impl [T]>::chunks", "core::slice::<impl [T]>::windows", "std::iter::Iterator::step_by",
+                 "core::slice::<impl [T]>::chunks_exact", "core::slice::<impl [T]>::chunks_mut", "core::slice::<impl [T]>::chunks_exact_mut")
 ASSERT_OBLIGATIONS = ("BoundsCheck", "Overflow(Sub)", "DivisionByZero", "RemainderByZero")
 ASSERT_COUNTED = ("Overflow(Add)", "Overflow(Mul)", "Overflow(Shl)", "Overflow(Shr)", "OverflowNeg")
 
@@ -389,6 +390,63 @@ def ub(ctx, fa, t, depth=0):
     return None
 
 
+def const_size(ctx, fa, t, depth=0):
+    """value of a size expression built from constants and encoded_size() of fixed-width codec
+    types (FixedWidthUint<uN> = N/8 bytes, [u8; N] = N bytes), else None"""
+    from ..codec import self_type_of, classify_type
+    from ..analysis import wrap_payload
+    if depth > 12 or not isinstance(t, tuple):
+        return None
+    t = unwrap_ovf(strip(t))
+    v = ev(ctx, t)
+    if v is not None:
+        return v
+    if t[0] == "bin" and t[1] in ("Add", "Mul"):
+        a, b = const_size(ctx, fa, t[2], depth + 1), const_size(ctx, fa, t[3], depth + 1)
+        if a is None or b is None:
+            return None
+        return a + b if t[1] == "Add" else a * b
+    if t[0] == "call" and t[2] == "compact_encoding::CompactEncoding::encoded_size" and 0 <= t[1] < len(fa.blocks):
+        st = self_type_of(fa.blocks[t[1]].term.get("callee_full"))
+        c = classify_type(st or "?", {})
+        if c[0] in ("fixed", "fixedle") and isinstance(c[1], int):
+            return c[1]
+    if t[0] == "join":
+        vs = [const_size(ctx, fa, x, depth + 1) for x in t[1]]
+        if vs and all(x is not None and x == vs[0] for x in vs):
+            return vs[0]
+    return None
+
+
+def const_len(ctx, fa, t, depth=0):
+    """length of a byte buffer term when it is a compile-time constant: `vec![x; N]` with N a
+    const_size, through expect/unwrap of a Result whose only Ok member is such a buffer"""
+    from ..analysis import wrap_payload
+    if depth > 8 or not isinstance(t, tuple):
+        return None
+    t = strip(t)
+    if t[0] == "call" and t[2].split("::")[-1] in ("expect", "unwrap") and t[3]:
+        inner = t[3][0]
+        p = wrap_payload("ok", inner)
+        if p[0] == "ok":
+            p = wrap_payload("some", inner)
+        if p == ("never",) or p[0] in ("ok", "some"):
+            return None
+        return const_len(ctx, fa, p, depth + 1)
+    if t[0] == "call" and t[2].split("::")[-1] == "from_elem" and len(t[3]) == 2:
+        return const_size(ctx, fa, t[3][1])
+    if t[0] == "repeat":
+        try:
+            return int(t[2])
+        except Exception:
+            return None
+    if t[0] == "join":
+        vs = [const_len(ctx, fa, x, depth + 1) for x in t[1]]
+        if vs and all(x is not None and x == vs[0] for x in vs):
+            return vs[0]
+    return None
+
+
 def discharge_auto(ctx, site):
     fa, bb = site.fa, site.bb
     facts = None
@@ -506,6 +564,43 @@ def discharge_auto(ctx, site):
                             return "A2", "guard len(base) %s %d covers [len-%d]" % (op, bv, j)
                         if a[0] == "len" and same(a[1], base) and op == "Gt" and j == 1:
                             return "A2", "guard len(base) > (unsigned) covers [len-1]"
+        # constant bounds inside a buffer of constant length
+        if ix is not None and is_agg(ix) and ix[1].split("::")[-1] in ("RangeTo", "RangeFrom", "Range", "RangeInclusive", "RangeToInclusive"):
+            L = const_len(ctx, fa, base)
+            bnds = [ev(ctx, o) for f_, o in ix[3]]
+            if L is not None and bnds and all(b_ is not None and b_ <= L for b_ in bnds) and "Inclusive" not in ix[1] and bnds == sorted(bnds):
+                return "A1", "constant slice bounds %s within a buffer of constant length %d" % (bnds, L)
+        # base[..p] / base[p..] with p = position(..) found in the same base: p < len(base)
+        if ix is not None and is_agg(ix) and ix[1].split("::")[-1] in ("RangeTo", "RangeFrom", "Range"):
+            ends = [strip(o) for f_, o in ix[3]]
+            def in_base(e):
+                return (e[0] == "call" and e[2].split("::")[-1] in ("position", "rposition") and e[3] and strip(e[3][0]) == strip(base)) or ev(ctx, e) == 0
+            if ends and all(in_base(e) for e in ends):
+                return "A2", "slice bound is a position found in the same base (position < len(base))"
+    if k == "call":
+        if site.detail in ("split_at", "split_at_mut") and len(site.ops) > 1:
+            L, v = const_len(ctx, fa, site.ops[0]), ev(ctx, site.ops[1])
+            if L is not None and v is not None and v <= L:
+                return "A1", "split point %d within a buffer of constant length %d" % (v, L)
+        if site.detail in ("chunks", "chunks_exact", "chunks_mut", "chunks_exact_mut", "windows", "step_by") and len(site.ops) > 1:
+            v = ev(ctx, site.ops[1])
+            if v is not None and v > 0:
+                return "A1", "constant non-zero %s size %d" % (site.detail, v)
+    if k == "assert" and site.detail == "Overflow(Sub)":
+        # len(v) - count(<adaptor chain over v>): an iterator over v yields at most len(v) items
+        a, b = (strip(unwrap_ovf(x)) for x in site.ops)
+        if a[0] == "len" and b[0] == "call" and b[2].split("::")[-1] == "count":
+            src = b[3][0] if b[3] else None
+            hops = 0
+            while src is not None and hops < 8:
+                src = strip(src)
+                if src == strip(a[1]):
+                    return "A2", "count() of an iterator over the same collection is at most its length"
+                if src[0] == "call" and src[2].split("::")[-1] in ("take_while", "rev", "filter", "skip_while", "skip", "take", "iter", "into_iter", "enumerate", "peekable") and src[3]:
+                    src = src[3][0]
+                    hops += 1
+                    continue
+                break
     return None, None
 
 
